@@ -36,6 +36,19 @@ def run(ctx):
     d = vlib.scratch("c16")
     rnd = random.Random(ctx.seed * 37 + 16)
     ctx.mc("MC_ReaderWindow", timeout=600)
+    # unbounded supplement: the window invariant is inductive for the real constants (Apalache)
+    obligations = [("Init", "IndInv", 0), ("IndInit", "IndInv", 1), ("IndInit", "TrimInBounds", 0)]
+    proved = 0
+    for init, inv, length in obligations:
+        ok, text = vlib.run_apalache("ReaderWindowInd", init, inv, length)
+        if ok is None:
+            ctx.notes.append("apalache could not be run (%s): inductive supplement skipped" % text[:100])
+            break
+        if not ok:
+            raise vlib.MachineryFault("Apalache refutes %s from %s (model-level finding, not a verdict on the code):\n%s" % (inv, init, text))
+        proved += 1
+    ctx.extra["apalache_inductive_obligations"] = {"discharged": proved, "of": len(obligations),
+                                                   "what": "ReaderWindowInd: Init => IndInv; IndInv /\\ Next => IndInv'; IndInv => TrimInBounds (W = 65536, blocks 0..4 MiB)"}
     m = ctx.mc("MC_LinkedPlans", want_cases=True, timeout=1800, heap="8g")
     plans = sorted((p["blocks"] for p in m.cases), key=lambda x: json.dumps(x, sort_keys=True))
     if len(plans) != 216000:
